@@ -22,9 +22,9 @@ type Exec struct {
 }
 
 type recChooser struct {
-	prefix []int
-	expN   []int // expected number of alternatives for the prefix positions
-	x      *Exec
+	prefix   []int
+	expN     []int // expected number of alternatives for the prefix positions
+	x        *Exec
 	diverged string
 }
 
